@@ -170,3 +170,19 @@ package readline
 //@   requires rl != nil && rl.Keys != nil && rl.completer != nil && rl.History != nil
 //@   at_call GetBuffer#1 [macro-as-typed] bind.Macro && (main || len(bind.Action) > 0) && clean(runes(inputrc.unescs(bind.Action))) ==> rl.Keys.macroKeys == old(rl.Keys.macroKeys) + runes(inputrc.unescs(bind.Action))
 //@   at_call GetBuffer#1 [non-macro-feeds-nothing] !bind.Macro ==> rl.Keys.macroKeys == old(rl.Keys.macroKeys) && rl.Keys.buf == old(rl.Keys.buf)
+
+// ---------------------------------------------------------------------------------------
+// C02: what the user types is what Readline returns (per keystroke: dispatch -> caller keys -> self-insert)
+
+// typing(rl): plain typing state: no completion or search in progress, no suffix matcher registered
+//@ pred typing(rl *Shell) = cmdok(rl) && rl.Keys != nil && rl.Keymap != nil && rl.completer != nil && rl.Config != nil && completion.evalid(rl.completer) && rl.completer.line == rl.line && rl.completer.cursor == rl.cursor && len(rl.completer.sm.string) == 0 && core.cok(rl.cursor)
+// the pair characters the autopairs option treats specially (the per-keystroke statement is for all others)
+//@ spec ispair(c rune) bool = c == '{' || c == '}' || c == '(' || c == ')' || c == '[' || c == ']' || c == '<' || c == '"' || c == '\''
+
+//@ func (*Shell).selfInsert
+//@   props C02
+//@   assume_nopanic Caller() is non-empty when a command runs (A-LOOP); the pair-character branch is outside the per-keystroke statement
+//@   requires typing(rl) && len(rl.Keys.matched) >= 1
+//@   let c = rl.Keys.matched[0]
+//@   let p = rl.cursor.pos
+//@   ensures [typed-char-inserted] 32 <= c && c <= 126 && !ispair(c) ==> *rl.line == old(*rl.line)[:p] + unit(c) + old(*rl.line)[p:] && rl.cursor.pos == p + 1
